@@ -531,8 +531,8 @@ async fn run_c17(sc: &Value, attempt: u64, rec: Arc<Recorder>) -> Value {
             notes.push("not connected within 10 s".into());
             return;
         }
-        if cfg.dc && !wait_until(Duration::from_secs(10), || pair.both_dc_open()).await {
-            notes.push("channels not open within 10 s".into());
+        if cfg.dc && !wait_until(Duration::from_secs(25), || pair.both_dc_open()).await {
+            notes.push("channels not open within 25 s".into());
             return;
         }
         if phase == "mediaFlowing" {
@@ -790,6 +790,21 @@ async fn run_c10(sc: &Value, rec: Arc<Recorder>) -> Value {
     let base_tasks = alive_tasks();
     let base_socks = socket_count();
     let connect_bound = Duration::from_secs(sc.get("connect_s").and_then(|v| v.as_u64()).unwrap_or(15));
+    // optional schedule: the task running set_remote_description is held (its thread sleeps) right after it has
+    // started ICE, on the given side - a slow application thread
+    let hold_ms = if cfg.sched == "slowSetRemote" {
+        300
+    } else {
+        sc.get("hold_setremote_ms").and_then(|v| v.as_u64()).unwrap_or(0)
+    };
+    if hold_ms > 0 {
+        let side = if cfg.sched == "slowSetRemote" { cfg.offerer.clone() } else { s(sc, "hold_side", "B").to_string() };
+        rustrtc::verif::set_probe(Some(Arc::new(move |_comp: &str, inst: &str, point: &str| {
+            if inst == side && point == "setremote.ice_started" {
+                std::thread::sleep(Duration::from_millis(hold_ms));
+            }
+        })));
+    }
     let pair = Pair::new(&cfg);
     let mut notes: Vec<String> = vec![];
     let t0 = Instant::now();
@@ -820,9 +835,9 @@ async fn run_c10(sc: &Value, rec: Arc<Recorder>) -> Value {
     // data channel: one message per direction, compared byte for byte
     let mut dc_ok = json!({"A": true, "B": true});
     if cfg.dc {
-        let open = connected && wait_until(Duration::from_secs(10), || pair.both_dc_open()).await;
+        let open = connected && wait_until(Duration::from_secs(25), || pair.both_dc_open()).await;
         if !open {
-            notes.push("data channel not open on both sides within 10 s".into());
+            notes.push("data channel not open on both sides within 25 s".into());
         }
         for (from, to) in [(&pair.a, &pair.b), (&pair.b, &pair.a)] {
             let msg = format!("c10-dc-from-{}-{}", from.label, sc["id"]).into_bytes();
